@@ -200,6 +200,22 @@ func explore(gauge bool, progs [][]op, maxRuns int, emitCase func(runOut)) (runs
 	}
 }
 
+// capBig keeps the running integer total of a counter program below 2^64 (the property's quantifier): at most one
+// amount of 2^61 or more per program; further ones are replaced by 1.
+func capBig(progs [][]op) {
+	seen := false
+	for t := range progs {
+		for i := range progs[t] {
+			if progs[t][i].v >= math.Ldexp(1, 61) && !math.IsInf(progs[t][i].v, 0) {
+				if seen {
+					progs[t][i].v = 1
+				}
+				seen = true
+			}
+		}
+	}
+}
+
 var grid = []float64{0.5, 0.25, 1.5, 2.75, 0.125, 3.5, 1, 2, 4, 1024, 0.0625}
 
 func genOp(r *emit.Rng, gauge bool) op {
@@ -269,6 +285,7 @@ func runC01(c *cli.Ctx) error {
 					progs[1][0] = op{kind: 1, v: grid[r.Intn(len(grid))]}
 				}
 			}
+			capBig(progs)
 			programs++
 			n, complete := explore(gauge, progs, 120, func(out runOut) {
 				nontrivial := len(out.res.Trace) >= 4
@@ -318,6 +335,7 @@ func runC01(c *cli.Ctx) error {
 					progs[t] = append(progs[t], genOp(r, gauge))
 				}
 			}
+			capBig(progs)
 			var g prometheus.Gauge
 			var cn prometheus.Counter
 			if gauge {
